@@ -298,4 +298,25 @@ def tracer_attribution_history(ctx: Ctx, repo: Repo, rule: str) -> None:
         ctx.check(got == want, rule, hc.fq,
                   "a call is attributed to the function of its own frame, whatever was resolved before: " + what,
                   construct=construct, history=f"attributed to {[str(x) for x in got]}, expected {[str(x) for x in want]}")
-    ctx.floor(rule, "attribution histories", n, 3)
+    # a function that cannot be resolved at its first call (its name is not bound yet: a function called while its module is
+    # still being imported, a closure found only through the locals of one particular caller) and can at the next one
+    st1 = State()
+    cache1 = st1.alloc("dict", {})
+    carry1: Optional[State] = st1
+    got1: List[Any] = []
+    for i, fv in enumerate((K(None), S("func:late"))):
+        sc = ValueTracer(repo, "handle_call", {"sample_rate": K(None), "cache": cache1}, trace_in_table=K(None), func_value=fv, cache_hit=None)
+        fr = frame_value(pe, f_locals=R("dict", items=((K(argname), inst("v", "A")),)), extra={"ident": K(f"late{i}")})
+        outs = sc.run({fparam: fr}, carry=carry1)
+        if len(outs) != 1:
+            raise AnalysisError(f"handle_call: {len(outs)} outcomes in the late-binding history")
+        carry1 = outs[0]
+        stores = [e for e in relevant(outs[0].effects) if e[0] == "setitem" and e[1] == "self.traces"]
+        tr = stores[-1][3] if stores else None
+        got1.append(tr.fields.get("func") if isinstance(tr, R) and tr.kind == "trace" else None)
+    n += 1
+    ctx.check(got1 == [None, S("func:late")], rule, hc.fq,
+              "a call of a resolvable function is traced whatever an earlier look-up for the same code object gave: a failed look-up is not remembered",
+              construct="the function cache stores the result of a FAILED look-up (None) under the code object: once a function was not resolvable at one call, no later call of it is traced",
+              history=f"first call: not resolvable; second call: resolvable - attributed to {[str(x) for x in got1]}")
+    ctx.floor(rule, "attribution histories", n, 4)
